@@ -2,6 +2,7 @@
 running a history on the real binary, replaying it on the extracted model,
 and comparing the projected observables."""
 import os
+import time as _time
 import subprocess
 
 from core import (BUILD, Sandbox, Snap, mask_log, render_log, parse_cat_tree, parse_log, parse_ls_files,
@@ -266,7 +267,7 @@ def run_real(goit, steps, tz="UTC", tz_offset=0, base=None, keep=False, hook=Non
         prev = Snap(sb)
         for st in steps:
             r = StepRec()
-            r.step, r.before, r.time, r.off = st, prev, 0, tz_offset
+            r.step, r.before, r.time, r.off = st, prev, int(_time.time()), tz_offset
             if st.kind == "edit":
                 getattr(sb, st.op)(*([st.path] + ([st.data] if st.op == "write" else [])))
                 r.res = None
